@@ -256,6 +256,10 @@ pub fn printable(v: &Narsese) -> Result<(), String> {
 struct Ctx<'a> {
     rep: &'a mut Report,
     cases: Vec<String>,
+    /// cases of the LEXICAL runner (Run/LexRun.v, type `lcase`) and their descriptions: written as a second group of
+    /// shards behind the enum cases (C15 only)
+    lcases: Vec<String>,
+    ldescr: Vec<String>,
 }
 impl<'a> Ctx<'a> {
     fn push(&mut self, case: String, descr: String) {
@@ -289,6 +293,17 @@ impl<'a> Ctx<'a> {
 }
 
 fn finish(o: &Opts, prop: &str, mut rep: Report, cases: Vec<String>) -> Report {
+    // the shards are contiguous slices of the case list and the streams differ a lot in cost per case (a 40-character
+    // Han name against a 3-character fragment): deal the cases round-robin so that the shards take about equally long.
+    // Cases and their descriptions are permuted together; a case's number is its position in the written order
+    let (cases, descr) = if rep.case_descr.len() == cases.len() && o.shards > 1 {
+        let k = o.shards;
+        let order: Vec<usize> = (0..k).flat_map(|j| (j..cases.len()).step_by(k)).collect();
+        (order.iter().map(|&i| cases[i].clone()).collect::<Vec<_>>(), order.iter().map(|&i| rep.case_descr[i].clone()).collect::<Vec<_>>())
+    } else {
+        (cases, std::mem::take(&mut rep.case_descr))
+    };
+    rep.case_descr = descr;
     rep.shards = write_shards(&o.outdir, prop, "Nv.Run.EnumRun", "mismatches_enum", "ecase", "N_scope", &cases, o.shards, "").unwrap();
     rep
 }
@@ -359,7 +374,7 @@ pub fn run_c01(o: &Opts) -> Report {
          distinct = distinct (format, canonical value); non-trivial = compound or sentence/task",
     );
     let mut rng = Rng::new(o.seed ^ 0xC01);
-    let mut cx = Ctx { rep: &mut rep, cases: vec![] };
+    let mut cx = Ctx { rep: &mut rep, cases: vec![], lcases: vec![], ldescr: vec![] };
     let per = (o.n / 3).max(20);
     for fm in formats() {
         for v in value_stream(&mut rng, &fm, per, o.thorough) {
@@ -456,10 +471,11 @@ pub fn run_c04(o: &Opts) -> Report {
     let mut rep = Report::new(
         "C04",
         "malformed stream (token / code-point deletion, duplication, transposition, keyword insertion, truncation at every prefix, unbalanced nesting to depth 64, 400-digit runs, 512-char inputs) x 3 formats x entry points \
-         parse / parse_chars / parse_multi / Truth / Budget / Stamp / Punctuation doors: real outcome (Ok value | Err | panic) vs model outcome; on the real code: no panic, error Display works; distinct = distinct (format, entry, input); non-trivial = non-empty input",
+         parse / parse_chars / parse_multi / Truth / Budget / Stamp / Punctuation doors: real outcome (Ok value | Err | panic) vs model outcome; \
+         plus a deterministic stream of error paths with long multi-byte payloads: every atom prefix x names of 1..40 chars made of 1-, 2-, 3-, 4-byte characters at every byte offset (rejected interval names, over-long numbers), bare / nested / in batches, and rejected number lists of truth, budget, fixed stamp; on the real code: no panic, error Display works; distinct = distinct (format, entry, input); non-trivial = non-empty input",
     );
     let mut rng = Rng::new(o.seed ^ 0xC04);
-    let mut cx = Ctx { rep: &mut rep, cases: vec![] };
+    let mut cx = Ctx { rep: &mut rep, cases: vec![], lcases: vec![], ldescr: vec![] };
     // corpus: inputs that used to panic (fixed: entries of known_findings.txt) run first
     let corpus: Vec<(usize, &str)> = vec![
         (0, "<(*,(*,(*,(*,(*,a"),
@@ -552,9 +568,83 @@ pub fn run_c04(o: &Opts) -> Report {
             let hs: Vec<String> = (0..k).map(|_| rng.pick(&inputs).clone()).filter(|s| s.chars().count() <= cap).collect();
             multi_case(&mut cx, &fm, &hs, "malformed-multi");
         }
+        rejected_payload_stream(&mut cx, &fm);
     }
     let cases = std::mem::take(&mut cx.cases);
     finish(o, "C04", rep, cases)
+}
+
+/// Error paths that echo their payload, with LONG and MULTI-BYTE payloads (deterministic, the same in both tiers):
+/// rejected atoms (intervals with non-numeric names, over-long numbers) and long names behind every atom prefix, bare
+/// and nested, through parse / parse_chars / parse_multi; rejected number lists of truth, budget and fixed stamp, in a
+/// sentence and through the stand-alone doors.  (The mutation stream only ever produced short ASCII payloads behind an
+/// interval prefix, and multi-byte names of at most a few characters.)
+fn rejected_payload_stream(cx: &mut Ctx, fm: &Fm) {
+    let e = fm.e;
+    fn whole(cx: &mut Ctx, fm: &Fm, s: &str, stream: &str, tag: &str, model: bool) -> PR<Narsese> {
+        let e = fm.e;
+        // the real code runs on every text; the model on all rejected ones and on half of the accepted long names
+        let r = if model { cx.parse_case(fm, s) } else { real_parse(e, s) };
+        cx.rep.evaluations += !model as u64;
+        cx.rep.hist.add(format!("{}:{}:{}", fm.name, tag, pr_tag(&r)));
+        if r.is_err() {
+            cx.fail(stream, "enum parser panicked (parse)", format!("[{}] {:?}", fm.name, s), "Ok or Err".into(), "PANIC".into(), None);
+        }
+        let rc = real_parse_chars(e, s);
+        cx.rep.evaluations += 1;
+        if rc.is_err() {
+            cx.fail(stream, "enum parser panicked (parse_chars)", format!("[{}] {:?}", fm.name, s), "Ok or Err".into(), "PANIC".into(), None);
+        }
+        if canon_pr(&rc) != canon_pr(&r) {
+            cx.fail(stream, "parse_chars differs from parse", format!("[{}] {:?}", fm.name, s), canon_pr(&r), canon_pr(&rc), None);
+        }
+        r
+    }
+    let atoms = rejected_atom_inputs(e);
+    let mut batch: Vec<String> = vec![];
+    for (i, (s, interval)) in atoms.iter().enumerate() {
+        whole(cx, fm, s, "rejected-atoms", if *interval { "interval-payload" } else { "name-payload" }, *interval || (i / 2) % 2 == 0);
+        // batches of four consecutive texts: all of the interval's, one in five of the others
+        if *interval || (i / 4) % 5 == 0 {
+            batch.push(s.clone());
+            if batch.len() == 4 {
+                multi_case(cx, fm, &batch, "rejected-atoms-multi");
+                batch.clear();
+            }
+        }
+    }
+    if !batch.is_empty() {
+        multi_case(cx, fm, &batch, "rejected-atoms-multi");
+    }
+    let items = rejected_number_items(e);
+    for (i, (kind, item)) in items.iter().enumerate() {
+        let s = item_in_sentence(e, *kind, item);
+        whole(cx, fm, &s, "rejected-numbers", "number-payload", true);
+        let (case, bad) = match kind {
+            ItemKind::Truth => {
+                let t = real_truth(e, item);
+                (format!("EDoorTruth {} {} {}", fm.idx, cstr(item), eres(&t, ctruth)), t.is_err())
+            }
+            ItemKind::Budget => {
+                let b = real_budget(e, item);
+                (format!("EDoorBudget {} {} {}", fm.idx, cstr(item), eres(&b, cbudget)), b.is_err())
+            }
+            ItemKind::Stamp => {
+                let st = real_stamp(e, item);
+                (format!("EDoorStamp {} {} {}", fm.idx, cstr(item), eres(&st, cstamp)), st.is_err())
+            }
+        };
+        cx.push(case, format!("{:?} door[{}] {:?}", kind, fm.name, item));
+        cx.rep.evaluations += 1;
+        cx.rep.hist.add(format!("{}:door-{:?}-payload:{}", fm.name, kind, if bad { "panic" } else { "no-panic" }));
+        if bad {
+            cx.fail("rejected-numbers", &format!("stand-alone {:?} parser panicked", kind), format!("[{}] {:?}", fm.name, item), "Ok or Err".into(), "PANIC".into(), None);
+        }
+        if i % 16 == 0 {
+            let hs: Vec<String> = items[i..(i + 3).min(items.len())].iter().map(|(k, it)| item_in_sentence(e, *k, it)).collect();
+            multi_case(cx, fm, &hs, "rejected-numbers-multi");
+        }
+    }
 }
 
 fn multi_case(cx: &mut Ctx, fm: &Fm, hs: &[String], stream: &str) {
@@ -596,11 +686,11 @@ fn multi_case(cx: &mut Ctx, fm: &Fm, hs: &[String], stream: &str) {
 pub fn run_c08(o: &Opts) -> Report {
     let mut rep = Report::new(
         "C08",
-        "histories of 2-8 inputs mixing complete tasks/sentences/terms, budget-only / truth-only / punctuation-only fragments, partial inputs and malformed strings x 3 formats: real parse_multi vs model parse_multi (one re-targeted state); \
+        "histories of 2-8 inputs mixing complete tasks/sentences/terms, budget-only / truth-only / punctuation-only fragments, partial inputs and malformed strings x 3 formats: real parse_multi vs model parse_multi (one re-targeted state); batches with repeated neighbours (every input -- each subset of the five items around a term, i.e. complete, partial and term-less, the fragments, complete values -- 2 and 3 times in a row, A B A B, A A B B), same-length and prefix neighbours; \
          on the real code: every position equals parsing that input alone, parse_chars equals parse, repeated parsing with the shared static instances gives equal results, lexical parser likewise; distinct = distinct (format, history); non-trivial = history with at least one failing or partial input before the last",
     );
     let mut rng = Rng::new(o.seed ^ 0xC08);
-    let mut cx = Ctx { rep: &mut rep, cases: vec![] };
+    let mut cx = Ctx { rep: &mut rep, cases: vec![], lcases: vec![], ldescr: vec![] };
     // corpus (fixed finding)
     let fm0 = &formats()[0];
     multi_case(&mut cx, fm0, &["A B".to_string(), ".".into(), "$0.5$ C".into(), "D.".into()], "corpus");
@@ -643,6 +733,48 @@ pub fn run_c08(o: &Opts) -> Report {
             let hs: Vec<String> = (0..k).map(|_| if rng.chance(1, 2) { rng.pick(&frags).clone() } else { rng.pick(&complete).clone() }).collect();
             multi_case(&mut cx, &fm, &hs, "histories");
         }
+        // batches with REPEATED and NEARLY EQUAL neighbours (a random history almost never has two equal inputs in a
+        // row): every input twice and three times in a row, A B A B, A A B B, B A A; a neighbour of the same length
+        // that differs in one character; a proper prefix before / after the full input.  The inputs are every subset
+        // of the five items around three terms (complete, PARTIAL -- term + truth, term + stamp, budget + term, which
+        // parse to the bare term and leave items over -- and term-less, which are errors), the fragments above and
+        // complete formatted values.
+        {
+            let g = term_gen_for(&fm, 2, 3);
+            let mut dup: Vec<String> = vec![];
+            let stmt = Term::new_inheritance(g.atom(&mut rng), g.atom(&mut rng));
+            let comp = Term::new_product(vec![g.atom(&mut rng), g.atom(&mut rng)]);
+            for t in [Term::new_word("A"), stmt, comp] {
+                dup.extend(item_subset_inputs(e, &e.format_term(&t), &mut rng));
+            }
+            dup.extend(frags.iter().cloned());
+            dup.extend(complete.iter().take(16).cloned());
+            for (i, a) in dup.iter().enumerate() {
+                let b = rng.pick(&dup).clone();
+                let mut batches: Vec<Vec<String>> = vec![vec![a.clone(); 2], vec![a.clone(); 3], vec![a.clone(), b.clone(), a.clone(), b.clone()]];
+                match i % 3 {
+                    0 => batches.push(vec![a.clone(), a.clone(), b.clone(), b.clone()]),
+                    1 => batches.push(vec![b.clone(), a.clone(), a.clone()]),
+                    _ => {}
+                }
+                let ca: Vec<char> = a.chars().collect();
+                if !ca.is_empty() && i % 2 == 0 {
+                    // same length, one character replaced (by a character of the same text, or by a digit)
+                    let k = rng.below(ca.len());
+                    let mut cb = ca.clone();
+                    cb[k] = if rng.chance(1, 2) { *rng.pick(&ca) } else { '7' };
+                    let near: String = cb.into_iter().collect();
+                    batches.push(vec![a.clone(), near.clone(), a.clone()]);
+                    // a proper prefix next to the full text, both ways
+                    let pre: String = ca[..rng.below(ca.len())].iter().collect();
+                    batches.push(vec![pre.clone(), a.clone(), pre.clone()]);
+                }
+                for hs in batches {
+                    cx.rep.hist.add(format!("{}:neighbours:{}", fm.name, if hs.windows(2).any(|w| w[0] == w[1]) { "equal-in-a-row" } else { "alternating-or-near" }));
+                    multi_case(&mut cx, &fm, &hs, "repeated-neighbours");
+                }
+            }
+        }
         // repeated parsing, parse_chars, lexical parser
         for s in complete.iter().take(20).chain(frags.iter()) {
             let a = real_parse(e, s);
@@ -677,7 +809,7 @@ pub fn run_c09(o: &Opts) -> Report {
          on the real code: every variant parses to the value the canonical string parses to, in the enum parser and in the lexical-parse-then-fold pipeline; whitespace-stripped text through parse_chars (what enum_nse! does); distinct = distinct (format, variant text); non-trivial = all",
     );
     let mut rng = Rng::new(o.seed ^ 0xC09);
-    let mut cx = Ctx { rep: &mut rep, cases: vec![] };
+    let mut cx = Ctx { rep: &mut rep, cases: vec![], lcases: vec![], ldescr: vec![] };
     {
         let fm0 = &formats()[0];
         for s in ["A. :! -1:", "A. :!-1:", "A.:!  -1 :", "<A-->B>.%1;0.9%", " < A --> B > . % 1 ; 0.9 % "] {
@@ -884,7 +1016,7 @@ pub fn run_c10(o: &Opts) -> Report {
          on the real code: both pipelines return the documented desugared value; image index = position of first placeholder; interval = decimal value; placeholder ignores trailing name; distinct = distinct (format, text); non-trivial = text contains a derived copula / image / interval",
     );
     let mut rng = Rng::new(o.seed ^ 0xC10);
-    let mut cx = Ctx { rep: &mut rep, cases: vec![] };
+    let mut cx = Ctx { rep: &mut rep, cases: vec![], lcases: vec![], ldescr: vec![] };
     for fm in formats() {
         let e = fm.e;
         let g = term_gen_for(&fm, 3, 3);
@@ -1178,7 +1310,7 @@ pub fn run_c12(o: &Opts) -> Report {
          and formats in all three formats and Typst without panicking; distinct = distinct (format, input); non-trivial = inputs whose result is Ok",
     );
     let mut rng = Rng::new(o.seed ^ 0xC12);
-    let mut cx = Ctx { rep: &mut rep, cases: vec![] };
+    let mut cx = Ctx { rep: &mut rep, cases: vec![], lcases: vec![], ldescr: vec![] };
     for fm in formats() {
         let e = fm.e;
         let mut inputs = malformed_inputs(&mut rng, &fm, o.n / 3, o.thorough);
@@ -1219,14 +1351,81 @@ pub fn run_c12(o: &Opts) -> Report {
 // -------------------------------------------------------------------------------------------
 // C15: classification and conversions
 // -------------------------------------------------------------------------------------------
+/// every public way of formatting an enum value with a format: the value-level dispatch (`format_narsese`), the
+/// `FormatTo` impl of the Narsese value (`format(&value)`, `value.format_to(fmt)`), and the three ways of formatting
+/// the payload directly (`format_term / _sentence / _task`, `format(&payload)`, `payload.format_to(fmt)`).
+/// None = the entry point panicked
+pub fn enum_format_entries(e: &'static EFmt, v: &Narsese) -> Vec<(&'static str, Option<String>)> {
+    use narsese::api::FormatTo;
+    let mut out: Vec<(&'static str, Option<String>)> = vec![
+        ("format_narsese", guard(|| e.format_narsese(v))),
+        ("format(&Narsese)", guard(|| e.format(v))),
+        ("Narsese::format_to", guard(|| FormatTo::format_to(v, e))),
+    ];
+    match v {
+        Narsese::Term(t) => {
+            out.push(("format_term", guard(|| e.format_term(t))));
+            out.push(("format(&Term)", guard(|| e.format(t))));
+            out.push(("Term::format_to", guard(|| FormatTo::format_to(t, e))));
+        }
+        Narsese::Sentence(s) => {
+            out.push(("format_sentence", guard(|| e.format_sentence(s))));
+            out.push(("format(&Sentence)", guard(|| e.format(s))));
+            out.push(("Sentence::format_to", guard(|| FormatTo::format_to(s, e))));
+        }
+        Narsese::Task(k) => {
+            out.push(("format_task", guard(|| e.format_task(k))));
+            out.push(("format(&Task)", guard(|| e.format(k))));
+            out.push(("Task::format_to", guard(|| FormatTo::format_to(k, e))));
+        }
+    }
+    out
+}
+
+/// the same for a lexical value and a lexical format
+pub fn lex_format_entries(l: &'static narsese::conversion::string::impl_lexical::NarseseFormat, v: &narsese::lexical::Narsese) -> Vec<(&'static str, Option<String>)> {
+    use narsese::api::FormatTo;
+    use narsese::lexical::Narsese as LN;
+    let mut out: Vec<(&'static str, Option<String>)> = vec![
+        ("lexical format_narsese", guard(|| l.format_narsese(v))),
+        ("lexical format(&Narsese)", guard(|| l.format(v))),
+        ("lexical Narsese::format_to", guard(|| FormatTo::format_to(v, l))),
+    ];
+    match v {
+        LN::Term(t) => {
+            out.push(("lexical format_term", guard(|| l.format_term(t))));
+            out.push(("lexical format(&Term)", guard(|| l.format(t))));
+        }
+        LN::Sentence(s) => {
+            out.push(("lexical format_sentence", guard(|| l.format_sentence(s))));
+            out.push(("lexical format(&Sentence)", guard(|| l.format(s))));
+        }
+        LN::Task(k) => {
+            out.push(("lexical format_task", guard(|| l.format_task(k))));
+            out.push(("lexical format(&Task)", guard(|| l.format(k))));
+        }
+    }
+    out
+}
+
+fn lkind(v: &narsese::lexical::Narsese) -> usize {
+    if v.is_task() {
+        2
+    } else if v.is_sentence() {
+        1
+    } else {
+        0
+    }
+}
+
 pub fn run_c15(o: &Opts) -> Report {
     let mut rep = Report::new(
         "C15",
         "item combinations (budget present / empty / absent) x (term) x (punctuation present / absent) x stamp x truth, in all three formats, through both parsers: real outcome vs model (enum) and the classification table; casts: sentence->task->sentence, task->sentence iff empty budget (else handed back unchanged), NarseseValue wrap/unwrap (9 accessor combinations), \
-         format(cast_to_task(s)) parses to a task with an empty budget in both models; distinct = distinct (format, text); non-trivial = all",
+         format(cast_to_task(s)) parses to a task with an empty budget in both models, through EVERY public formatting entry point (format_narsese on the wrapped value, format_task, format / FormatTo on the value and on the payload; enum and lexical), the text compared with the model formatters (lexical cases run by Run/LexRun.v); kind(parse(format(v))) = kind(v) through every entry point; distinct = distinct (format, text); non-trivial = all",
     );
     let mut rng = Rng::new(o.seed ^ 0xC15);
-    let mut cx = Ctx { rep: &mut rep, cases: vec![] };
+    let mut cx = Ctx { rep: &mut rep, cases: vec![], lcases: vec![], ldescr: vec![] };
     for fm in formats() {
         let e = fm.e;
         let g = term_gen_for(&fm, 3, 3);
@@ -1314,6 +1513,28 @@ pub fn run_c15(o: &Opts) -> Report {
         // casts and wrappers on enum values
         for v in value_stream(&mut rng, &fm, n, false) {
             cx.rep.evaluations += 1;
+            // kind(parse(format(v))) = kind(v), whichever public entry point formats v (a task stays a task, also with an
+            // empty budget; a sentence stays a sentence)
+            let v_text = e.format_narsese(&v);
+            if c01_known(e, &v, &v_text).is_none() && v_text.chars().count() <= 400 {
+                let mut seen: Vec<String> = vec![];
+                for (entry, text) in enum_format_entries(e, &v) {
+                    cx.rep.evaluations += 1;
+                    let Some(text) = text else {
+                        cx.fail("entries", &format!("{} panicked", entry), format!("[{}] {}", fm.name, canon_narsese(&v)), "a string".into(), "PANIC".into(), None);
+                        continue;
+                    };
+                    if seen.contains(&text) {
+                        continue; // the same text as an earlier entry point's
+                    }
+                    let r = cx.parse_case(&fm, &text);
+                    seen.push(text.clone());
+                    if !matches!(&r, Ok(Some(w)) if kind_of(w) == kind_of(&v)) {
+                        cx.fail("entries", &format!("kind(parse({}(v))) differs from kind(v)", entry), format!("[{}] {:?} = {} of {}", fm.name, text, entry, canon_narsese(&v)), ["term", "sentence", "task"][kind_of(&v)].into(), canon_pr(&r), None);
+                    }
+                }
+                cx.rep.hist.add(format!("{}:entry-points:{}:{}-distinct-text(s)", fm.name, ["term", "sentence", "task"][kind_of(&v)], seen.len()));
+            }
             match &v {
                 Narsese::Sentence(s) => {
                     let k: Task = s.clone().cast_to_task();
@@ -1325,11 +1546,26 @@ pub fn run_c15(o: &Opts) -> Report {
                         other => cx.fail("casts", "sentence -> task -> sentence must return the original", canon_narsese(&v), "Ok(original)".into(), format!("{:?}", other.is_ok()), None),
                     }
                     if c01_known(e, &v, &e.format_narsese(&v)).is_none() {
-                        let text = e.format_task(&k);
-                        let r = cx.parse_case(&fm, &text);
-                        let ok = matches!(&r, Ok(Some(Narsese::Task(t))) if matches!(t.get_budget(), Budget::Empty) && canon_narsese(&Narsese::Sentence(t.get_sentence().clone())) == canon_narsese(&v));
-                        if !ok {
-                            cx.fail("casts", "format(cast_to_task(s)) must parse to a task with an empty budget", format!("[{}] {:?}", fm.name, text), "Task(s, Empty)".into(), canon_pr(&r), c01_known(e, &Narsese::Task(k.clone()), &text));
+                        // EVERY public formatting entry point on the cast task (the value-level dispatch of format_narsese
+                        // and the FormatTo impls are separate code from format_task); the text of format_narsese is also
+                        // compared with the model formatter
+                        let wrapped = Narsese::Task(k.clone());
+                        let _ = cx.fmt_case(&fm, &wrapped);
+                        let mut seen: Vec<String> = vec![];
+                        for (entry, text) in enum_format_entries(e, &wrapped) {
+                            cx.rep.evaluations += 1;
+                            cx.rep.hist.add(format!("{}:cast-task-formatted-by:{}", fm.name, entry));
+                            let Some(text) = text else {
+                                cx.fail("casts", &format!("{} panicked on cast_to_task(s)", entry), format!("[{}] {}", fm.name, canon_narsese(&wrapped)), "a string".into(), "PANIC".into(), None);
+                                continue;
+                            };
+                            // the model parses every distinct text once
+                            let r = if seen.contains(&text) { real_parse(e, &text) } else { cx.parse_case(&fm, &text) };
+                            seen.push(text.clone());
+                            let ok = matches!(&r, Ok(Some(Narsese::Task(t))) if matches!(t.get_budget(), Budget::Empty) && canon_narsese(&Narsese::Sentence(t.get_sentence().clone())) == canon_narsese(&v));
+                            if !ok {
+                                cx.fail("casts", &format!("{}(cast_to_task(s)) must parse to a task with an empty budget", entry), format!("[{}] {:?} = {} of {}", fm.name, text, entry, canon_narsese(&wrapped)), "Task(s, Empty)".into(), canon_pr(&r), c01_known(e, &wrapped, &text));
+                            }
                         }
                     }
                     let as_task = v.clone().try_into_task_compatible();
@@ -1357,11 +1593,68 @@ pub fn run_c15(o: &Opts) -> Report {
             // the lexical model: the same casts on the lexical value of the same text, and on hand-built budgets with blank entries
             if let Some(Some(lv)) = guard(|| fm.l.parse(&e.format_narsese(&v)).ok()) {
                 use narsese::lexical::{Narsese as LN, Task as LTask};
+                // kind(parse(format(lv))) = kind(lv) through every public entry point of the lexical formatter (domain: values
+                // whose format_narsese text reads back as themselves)
+                if guard(|| fm.l.parse(&fm.l.format_narsese(&lv)).ok()).flatten().as_ref() == Some(&lv) {
+                    let mut seen: Vec<String> = vec![];
+                    for (entry, text) in lex_format_entries(fm.l, &lv) {
+                        cx.rep.evaluations += 1;
+                        let Some(text) = text else {
+                            cx.fail("entries", &format!("{} panicked", entry), format!("[{}] {:?}", fm.name, lv), "a string".into(), "PANIC".into(), None);
+                            continue;
+                        };
+                        if seen.contains(&text) {
+                            continue;
+                        }
+                        seen.push(text.clone());
+                        let r = crate::lexprops::real_lex_parse(fm.l, &text);
+                        if !matches!(&r, Ok(Some(w)) if lkind(w) == lkind(&lv)) {
+                            cx.fail("entries", &format!("kind(parse({}(v))) differs from kind(v)", entry), format!("[{}] {:?} = {} of {:?}", fm.name, text, entry, lv), ["term", "sentence", "task"][lkind(&lv)].into(), format!("{:?}", r), None);
+                        }
+                    }
+                }
                 match lv {
                     LN::Sentence(ls) => {
                         let lk: LTask = ls.clone().cast_to_task();
                         if !lk.budget.is_empty() || lk.clone().try_cast_to_sentence().ok().as_ref() != Some(&ls) {
                             cx.fail("casts", "lexical: sentence -> task -> sentence must return the original", canon_narsese(&v), "Ok(original)".into(), format!("{:?}", lk), None);
+                        }
+                        // the lexical model: every formatting entry point on the cast task; the text must parse (lexical
+                        // parser) to a task with an empty budget around the same sentence.  Domain: sentences whose own
+                        // text reads back as themselves (the Han ambiguities of C02 are not this property's business)
+                        let own = guard(|| fm.l.parse(&fm.l.format_sentence(&ls)).ok()).flatten();
+                        if own == Some(LN::Sentence(ls.clone())) {
+                            let lwrapped = LN::Task(lk.clone());
+                            let mut seen: Vec<String> = vec![];
+                            for (entry, text) in lex_format_entries(fm.l, &lwrapped) {
+                                cx.rep.evaluations += 1;
+                                cx.rep.hist.add(format!("{}:cast-task-formatted-by:{}", fm.name, entry));
+                                let Some(text) = text else {
+                                    cx.fail("casts", &format!("{} panicked on cast_to_task(s)", entry), format!("[{}] {:?}", fm.name, lwrapped), "a string".into(), "PANIC".into(), None);
+                                    continue;
+                                };
+                                if entry == "lexical format_narsese" {
+                                    cx.lcases.push(format!("LFmtC {} {} {}", fm.idx, crate::lexprops::clnarsese(&lwrapped), cstr(&text)));
+                                    cx.ldescr.push(format!("lexical format[{}] {:?}", fm.name, lwrapped));
+                                }
+                                let r = crate::lexprops::real_lex_parse(fm.l, &text);
+                                if !seen.contains(&text) {
+                                    let lit = match &r {
+                                        Ok(Some(x)) => format!("(LOk {})", crate::lexprops::clnarsese(x)),
+                                        Ok(None) => "LErr".into(),
+                                        Err(()) => "LPanic".into(),
+                                    };
+                                    cx.lcases.push(format!("LParseC {} {} {}", fm.idx, cstr(&text), lit));
+                                    cx.ldescr.push(format!("lexical parse[{}] {:?}", fm.name, text));
+                                    seen.push(text.clone());
+                                }
+                                let ok = matches!(&r, Ok(Some(LN::Task(t))) if t.budget.is_empty() && t.sentence == ls);
+                                if !ok {
+                                    cx.fail("casts", &format!("{}(cast_to_task(s)) must parse to a task with an empty budget", entry), format!("[{}] {:?} = {} of {:?}", fm.name, text, entry, lwrapped), "Task(s, [])".into(), format!("{:?}", r), None);
+                                }
+                            }
+                        } else {
+                            cx.rep.hist.add(format!("{}:lexical-sentence-does-not-read-back-as-itself", fm.name));
                         }
                         for blank in [vec!["".to_string()], vec!["".to_string(), "".to_string()], vec!["0.5".to_string()], vec!["".to_string(), "0.5".to_string()]] {
                             let t2 = LTask { budget: blank.clone(), sentence: ls.clone() };
@@ -1447,5 +1740,16 @@ pub fn run_c15(o: &Opts) -> Report {
         }
     }
     let cases = std::mem::take(&mut cx.cases);
-    finish(o, "C15", rep, cases)
+    let lcases = std::mem::take(&mut cx.lcases);
+    let ldescr = std::mem::take(&mut cx.ldescr);
+    let mut rep = finish(o, "C15", rep, cases.clone());
+    // second group of shards: the lexical cases, evaluated by the lexical runner; their indices continue the enum cases'
+    if !lcases.is_empty() {
+        let off = cases.len();
+        let extra = write_shards(&o.outdir, "C15L", "Nv.Run.LexRun", "mismatches_lex", "lcase", "N_scope", &lcases, (o.shards / 4).max(1), "").unwrap();
+        rep.shards.extend(extra.into_iter().map(|(p, lo, hi)| (p, lo + off, hi + off)));
+        rep.case_descr.extend(ldescr);
+        rep.evaluations += lcases.len() as u64;
+    }
+    rep
 }
